@@ -22,8 +22,8 @@ fn layout(cols: &[ColSeed], tail_gap: u16, subrow_sheet: bool) -> (Vec<Column>, 
     let mut last_packed: Option<(usize, u8)> = None;
     for i in order {
         let (mut ty, gap, _, share) = cols[i];
-        if subrow_sheet && ty == 0 {
-            ty = 7; // no string columns in sub-row sheets
+        if subrow_sheet && ty == 0 && gap % 2 == 1 {
+            ty = 7; // string columns are kept rarer in sub-row sheets
         }
         if ty >= 11 {
             let bit = 1u8 << (ty - 11);
@@ -188,6 +188,9 @@ fn check_rows(exd: &EXD, exh: &EXH, s: &Schema, rows: &[Row], ctx: &Ctx) -> PRes
             }
         }
         ctx.classf(format!("subrows:{}", match r.subrows.len() { 1 => "1", 2..=8 => "2-8", _ => ">8" }));
+        if r.subrows.len() > 1 && s.columns.iter().any(|c| c.ty == 0) {
+            ctx.class("subrow-sheet-with-string-cells");
+        }
     }
     Ok(())
 }
@@ -404,8 +407,8 @@ fn prop_archive(c: &ArchiveCase, ctx: &Ctx) -> PResult {
 pub fn property() -> Property {
     Property {
         id: "C05",
-        rule: "direct route: schema of 1..24 columns over all 19 column types at non-overlapping offsets with gaps (packed bools may share a byte), arbitrary fixed-region size, 1..4 pages, 1..4 languages in the 2-byte on-disk form; 1..8 rows with distinct ids in shuffled physical order, either single-record rows with a string heap (junk gaps between strings, ASCII strings 0..300 incl. control characters) or 2..8 (up to 300) sub-rows; gaps and unused bits filled with junk; numeric cells with extremes (MIN/MAX/NaN/inf/-0 bit patterns); encoded big-endian by the harness; read through EXH/EXD::from_existing + read_row for every stored id and some absent ids; file names for all 8 languages. archive route: 1..4 sheets (mixed-case names, optional folder) with several pages and languages packed into a generated 0a0000 archive together with exd/root.exl; read through get_all_sheet_names / read_excel_sheet_header / read_excel_sheet. Oracle: the generated cell values (floats by bit pattern). Non-trivial (direct): >= 4 distinct column types incl. a string or packed bool and >= 2 rows; (archive): a sheet with >= 2 pages or >= 2 languages. Distinct by hash of the encoded page / case.",
-        assumptions: &["string cells only in single-record rows; only the first EXH language entry is compared (Physis reads 1 byte per language, the format stores 2)", "a sub-row sheet always has >= 2 sub-rows per row (Physis switches on row_count > 1)"],
+        rule: "direct route: schema of 1..24 columns over all 19 column types at non-overlapping offsets with gaps (packed bools may share a byte), arbitrary fixed-region size, 1..4 pages, 1..4 languages in the 2-byte on-disk form; 1..8 rows with distinct ids in shuffled physical order, either single-record rows with a string heap (junk gaps between strings, ASCII strings 0..300 incl. control characters) or 2..8 (up to 300) sub-rows, also with string cells (one heap behind the last sub-row); gaps and unused bits filled with junk; numeric cells with extremes (MIN/MAX/NaN/inf/-0 bit patterns); encoded big-endian by the harness; read through EXH/EXD::from_existing + read_row for every stored id and some absent ids; file names for all 8 languages. archive route: 1..4 sheets (mixed-case names, optional folder) with several pages and languages packed into a generated 0a0000 archive together with exd/root.exl; read through get_all_sheet_names / read_excel_sheet_header / read_excel_sheet. Oracle: the generated cell values (floats by bit pattern). Non-trivial (direct): >= 4 distinct column types incl. a string or packed bool and >= 2 rows; (archive): a sheet with >= 2 pages or >= 2 languages. Distinct by hash of the encoded page / case.",
+        assumptions: &["string cells of sub-row sheets hold offsets relative to the end of their own sub-row's fixed-size region, with one heap behind the last sub-row (the reference reader Lumina's convention)", "only the first EXH language entry is compared (Physis reads 1 byte per language, the format stores 2)", "a sub-row sheet always has >= 2 sub-rows per row (Physis switches on row_count > 1)"],
         pre: None,
         post: None,
         parts: vec![
